@@ -3,6 +3,8 @@ package main
 import (
 	"regexp"
 	"strings"
+
+	"golang.org/x/tools/go/ssa"
 )
 
 // pattern DSL for guard tables: text is literal, "…" matches anything, %NAME% are macros.
@@ -59,15 +61,25 @@ const (
 func runGuardTable(c *Ctx, rule string, ge *GuardEngine, table []GuardReq) {
 	cache := map[string][]Guard{}
 	for _, r := range table {
-		gs, ok := cache[r.Entry]
+		key := r.Entry
+		if r.All {
+			key = "all:" + r.Entry
+		}
+		gs, ok := cache[key]
 		if !ok {
 			var found bool
-			gs, found = ge.EntryGuards(r.Entry)
+			if r.All {
+				if fn := ge.p.Func(r.Entry); fn != nil {
+					gs, found = ge.AllGuards(fn, nil, 0, map[*ssa.Function]bool{}), true
+				}
+			} else {
+				gs, found = ge.EntryGuards(r.Entry)
+			}
 			if !found {
 				c.Undecided(rule, r.ID, r.Entry, "entry point "+r.Entry+" does not resolve")
 				continue
 			}
-			cache[r.Entry] = gs
+			cache[key] = gs
 			fns := map[string]bool{}
 			for _, g := range gs {
 				fns[FuncName(g.Fn)] = true
